@@ -11,10 +11,10 @@ import (
 
 func init() {
 	register(&Property{
-		ID:  "C07",
-		Run: runC07,
+		ID:          "C07",
+		Run:         runC07,
 		Explanation: "Termination safety of the priority disciplines: E1 every normal return of the scheduling loop is dominated by 'all inputs observed drained' (v1: together with the graceful signal, or it is a stop/cancel return); E2 an input is marked drained only on the closed-channel edge of a receive from the channel of the same key; E3 the two for-all helpers (all inputs drained, all in-flight counters zero) answer true only after a complete pass over the map; E4 a wait-until-nothing-is-in-flight loop is deferred unconditionally at the top of the scheduling loop function and leaves only when all counters are zero (v1: or on stop/cancel); E5 termination signals (close of channels, Complete of breakers) are raised only by unconditional defers of a goroutine entry; E6 the error channel is written only under err != nil with a value that originates in the divider check; E7 v1 Simple joins its handlers before signalling.",
-		NotDecided: []string{"'promptly': no time bound is derived", "that termination eventually happens (liveness)"},
+		NotDecided:  []string{"'promptly': no time bound is derived", "that termination eventually happens (liveness)"},
 	})
 }
 
@@ -252,18 +252,10 @@ func c07loopReturns(c *Ctx, sr *schedRoles) {
 		}
 		drained, graceful, stop := false, false, false
 		for _, e := range edges {
-			if p.edgeIsCallResult(e, func(f *ssa.Function) bool { return f == sr.allDrained }, true) {
-				drained = true
-			}
-			if _, cs, _ := p.CaseOnEdge(e.From, e.Succ); cs != nil {
-				role := p.stopRoleOf(cs.State.Chan)
-				if strings.HasPrefix(role, "stop:") {
-					stop = true
-				}
-				if role == "graceful" {
-					graceful = true
-				}
-			}
+			fs := c07edgeFacts(p, sr, e, 0)
+			drained = drained || fs["drained"]
+			graceful = graceful || fs["graceful"]
+			stop = stop || fs["stop"]
 		}
 		hasGraceful := false
 		for _, f := range sr.d.Fields() {
@@ -291,6 +283,71 @@ func c07loopReturns(c *Ctx, sr *schedRoles) {
 			r.Fail("E1", key, p.InstrPos(ret), "the scheduling loop can return normally (and the discipline then signals termination) without having observed every input closed and empty; conditions on this return: "+desc)
 		}
 	}
+}
+
+// c07edgeFacts: what is known when edge e is taken: "drained" (the all-inputs-drained test answered
+// true), "graceful" / "stop" (the clause of that signal was taken). A test of a boolean helper
+// (isGracefullyCompleted()) contributes what holds on every path on which the helper can return true.
+func c07edgeFacts(p *Prog, sr *schedRoles, e CondEdge, depth int) map[string]bool {
+	out := map[string]bool{}
+	if p.edgeIsCallResult(e, func(f *ssa.Function) bool { return f == sr.allDrained }, true) {
+		out["drained"] = true
+		return out
+	}
+	if _, cs, _ := p.CaseOnEdge(e.From, e.Succ); cs != nil {
+		role := p.stopRoleOf(cs.State.Chan)
+		if strings.HasPrefix(role, "stop:") {
+			out["stop"] = true
+		}
+		if role == "graceful" {
+			out["graceful"] = true
+		}
+		return out
+	}
+	iff, ok := e.From.Instrs[len(e.From.Instrs)-1].(*ssa.If)
+	if !ok || depth > 3 {
+		return out
+	}
+	base, neg := condOf(iff.Cond)
+	call, isCall := base.(*ssa.Call)
+	if !isCall || ((e.Succ == 0) == neg) {
+		return out // not "helper answered true"
+	}
+	h := p.Callee(call)
+	if h == nil || !p.IsProduct(h) || h == sr.allDrained || !returnsBoolOnly(h) {
+		return out
+	}
+	first := true
+	for _, b := range h.Blocks {
+		ret, isRet := b.Instrs[len(b.Instrs)-1].(*ssa.Return)
+		if !isRet || b == h.Recover {
+			continue
+		}
+		if cv, isC := ret.Results[0].(*ssa.Const); isC && constString(cv) == "false" {
+			continue
+		}
+		fs := map[string]bool{}
+		if rc, isRC := ret.Results[0].(*ssa.Call); isRC && p.Callee(rc) == sr.allDrained {
+			fs["drained"] = true
+		}
+		for _, e2 := range DomEdges(b) {
+			for k, v := range c07edgeFacts(p, sr, e2, depth+1) {
+				if v {
+					fs[k] = true
+				}
+			}
+		}
+		if first {
+			out, first = fs, false
+			continue
+		}
+		for k := range out {
+			if !fs[k] {
+				delete(out, k)
+			}
+		}
+	}
+	return out
 }
 
 func c07drainedMarks(c *Ctx, sr *schedRoles) {
@@ -331,82 +388,145 @@ func c07drainedMarks(c *Ctx, sr *schedRoles) {
 			}
 		}
 	}
-	// E2c: the closed edge of every input receive marks that input drained (otherwise the
-	// discipline never observes "all inputs drained" and never terminates normally)
+	// E2c/E2-mark: the closed edge of every input receive marks THAT input drained before anything
+	// else is received, and an input is marked drained only there. Decided as a typestate over the
+	// scheduler with every callee inlined: idle -closed edge of table[k]-> closed(k) -mark(k)-> idle.
+	type recvRes struct {
+		rs  *RecvSite
+		bad []string
+		n   int
+	}
+	recvs := map[ssa.Value]*recvRes{} // by comma-ok value
+	var recvOrder []*recvRes
+	perFn := map[string]int{}
 	for _, fn := range sr.rt.Funcs {
-		n := 0
 		for _, rs := range p.RecvSites(fn) {
 			if !isInputChanType(rs.Chan.Type()) || rs.Ok == nil {
 				continue
 			}
-			n++
-			marked := false
-			for _, cs := range p.CallSites(sr.markDrain) {
-				if cs.Parent() != fn {
-					continue
+			perFn[p.FnKey(fn)]++
+			rr := &recvRes{rs: rs, n: perFn[p.FnKey(fn)]}
+			recvs[rs.Ok] = rr
+			recvOrder = append(recvOrder, rr)
+		}
+	}
+	type markRes struct {
+		in      ssa.Instruction
+		bad     []string
+		covered bool
+		what    string
+	}
+	marks := map[ssa.Instruction]*markRes{}
+	var markOrder []*markRes
+	isMark := func(in ssa.Instruction) (*ssa.MapUpdate, bool) {
+		mu, ok := in.(*ssa.MapUpdate)
+		if !ok || !isInputTableType(mu.Map.Type()) {
+			return nil, false
+		}
+		val := p.Sym(mu.Value)
+		if val.Op != "struct" {
+			return nil, false
+		}
+		for i, k := range val.Keys {
+			if k == "Drained" && val.Args[i] != nil && val.Args[i].String() == "true" {
+				return mu, true
+			}
+		}
+		return nil, false
+	}
+	for _, fn := range sr.rt.Funcs {
+		for _, b := range fn.Blocks {
+			for _, in := range b.Instrs {
+				if _, ok := isMark(in); ok {
+					mr := &markRes{in: in}
+					marks[in] = mr
+					markOrder = append(markOrder, mr)
 				}
-				for _, e := range InstrDomEdges(cs) {
-					iff := e.From.Instrs[len(e.From.Instrs)-1].(*ssa.If)
-					base, neg := condOf(iff.Cond)
-					if base == rs.Ok && ((e.Succ == 0) == neg) {
-						marked = true
+			}
+		}
+	}
+	fl := &Flow{P: p, TrackBoolReturns: true}
+	closedOf := map[string]*recvRes{}
+	fl.Edge = func(fr *Frame, st string, from *ssa.BasicBlock, succ int) []string {
+		iff, ok := from.Instrs[len(from.Instrs)-1].(*ssa.If)
+		if !ok {
+			return nil
+		}
+		base, neg := condOf(iff.Cond)
+		if r2, _ := fr.Resolve(base); r2 != nil {
+			base = r2
+		}
+		rr := recvs[base]
+		if rr == nil || (succ == 0) != neg {
+			return nil
+		}
+		// closed edge of rr
+		k := tableKeyOf(p.SymFrame(fr, rr.rs.Chan))
+		ks := "?"
+		if k != nil {
+			ks = k.String()
+		}
+		if strings.HasPrefix(st, "closed|") {
+			closedOf[st].bad = append(closedOf[st].bad, "another input is observed closed before this one was marked drained")
+		}
+		ns := "closed|" + ks + "|" + rr.rs.Pos(p)
+		closedOf[ns] = rr
+		return []string{ns}
+	}
+	fl.Instr = func(fr *Frame, st string, in ssa.Instruction) []string {
+		if mu, ok := isMark(in); ok {
+			mr := marks[in]
+			key := p.SymFrame(fr, mu.Key).StripInst().String()
+			mr.what = key
+			if !strings.HasPrefix(st, "closed|") {
+				mr.bad = append(mr.bad, "not on the closed edge of any input receive ["+fr.Chain(p)+"]")
+				return nil
+			}
+			parts := strings.SplitN(st, "|", 3)
+			if parts[1] != key {
+				mr.bad = append(mr.bad, fmt.Sprintf("closed channel was registered under %s but %s is marked drained", parts[1], key))
+				return []string{"idle"}
+			}
+			mr.covered = true
+			return []string{"idle"}
+		}
+		// a further receive from an input while one is closed and unmarked
+		if strings.HasPrefix(st, "closed|") {
+			if sel, isSel := in.(*ssa.Select); isSel {
+				for _, cs := range p.SelectInfo(sel).Cases {
+					if isInputChanType(cs.State.Chan.Type()) {
+						closedOf[st].bad = append(closedOf[st].bad, "the next input receive is reached without marking this input drained")
+						return []string{"idle"}
 					}
 				}
 			}
-			r.Check(marked, "E2", fmt.Sprintf("%s#closed.%d", p.FnKey(fn), n), rs.Pos(p), "closed edge marks the input drained", "the closed-channel edge of this input receive does not mark the input drained: the all-inputs-drained condition is never reached and the discipline never terminates normally")
 		}
+		return nil
 	}
-	// the marker must write table[key] with key = its parameter
-	mk := sr.markDrain
-	var keyParam *ssa.Parameter
-	for _, b := range mk.Blocks {
-		for _, in := range b.Instrs {
-			if mu, ok := in.(*ssa.MapUpdate); ok && isInputTableType(mu.Map.Type()) {
-				if par, ok := mu.Key.(*ssa.Parameter); ok {
-					keyParam = par
-				}
-			}
+	fl.Exit = func(fr *Frame, st string, ret *ssa.Return) []string {
+		if fr.Parent == nil && strings.HasPrefix(st, "closed|") {
+			closedOf[st].bad = append(closedOf[st].bad, "the scheduler returns without marking this input drained")
 		}
+		return nil
 	}
-	if keyParam == nil {
-		r.Fail("E2", p.FnKey(mk), p.Pos(mk.Pos()), "UNDECIDED: drained marker does not update table[parameter]")
-		return
+	fl.Run(sr.loopFn, []string{"idle"})
+	if fl.Err != nil {
+		r.Fail("E2", p.FnKey(sr.loopFn)+"#flow", p.Pos(sr.loopFn.Pos()), fl.Err.Error())
 	}
-	sites := p.CallSites(mk)
-	if len(sites) == 0 {
-		r.Fail("E2", p.FnKey(mk), p.Pos(mk.Pos()), "UNRESOLVED-ANCHOR: drained marker is never called")
+	for _, rr := range recvOrder {
+		r.Check(len(rr.bad) == 0, "E2", fmt.Sprintf("%s#closed.%d", p.FnKey(rr.rs.Fn), rr.n), rr.rs.Pos(p), "closed edge marks the input drained", "the closed-channel edge of this input receive does not mark the input drained ("+strings.Join(dedup(rr.bad), "; ")+"): the all-inputs-drained condition is never reached and the discipline never terminates normally")
+	}
+	if len(markOrder) == 0 {
+		r.Fail("E2", p.Name+":priority#mark", "-", "UNRESOLVED-ANCHOR: no input is ever marked drained")
 	}
 	ord := map[string]int{}
-	for _, cs := range sites {
-		fk := p.FnKey(cs.Parent())
+	for _, mr := range markOrder {
+		fk := p.FnKey(mr.in.Parent())
 		ord[fk]++
-		key := fmt.Sprintf("%s#mark.%d", fk, ord[fk])
-		arg := p.Sym(cs.Common().Args[paramIndex(mk, keyParam)]).String()
-		ok := false
-		why := "not on the closed edge of any input receive"
-		for _, rs := range p.RecvSites(cs.Parent()) {
-			if !isInputChanType(rs.Chan.Type()) || rs.Ok == nil {
-				continue
-			}
-			k := tableKeyOf(p.Sym(rs.Chan))
-			// closed edge of this receive dominates the call
-			for _, e := range InstrDomEdges(cs) {
-				iff := e.From.Instrs[len(e.From.Instrs)-1].(*ssa.If)
-				base, neg := condOf(iff.Cond)
-				if base == rs.Ok && ((e.Succ == 0) == neg) {
-					// also inside this clause
-					if rs.Case != nil && !(rs.Case.Body == e.From || rs.Case.Body.Dominates(e.From)) {
-						continue
-					}
-					if k != nil && k.String() == arg {
-						ok = true
-					} else {
-						why = fmt.Sprintf("closed channel was registered under %v but %s is marked drained", k, arg)
-					}
-				}
-			}
+		if !mr.covered && len(mr.bad) == 0 {
+			mr.bad = append(mr.bad, "not on the closed edge of any input receive (never reached from one)")
 		}
-		r.Check(ok, "E2", key, p.InstrPos(cs), "on the closed edge of the receive from table["+arg+"]", "input marked drained "+why+": the discipline may terminate while that input still holds data")
+		r.Check(len(mr.bad) == 0, "E2", fmt.Sprintf("%s#mark.%d", fk, ord[fk]), p.InstrPos(mr.in), "on the closed edge of the receive from table["+mr.what+"]", "input marked drained "+strings.Join(dedup(mr.bad), "; ")+": the discipline may terminate while that input still holds data")
 	}
 }
 
@@ -695,7 +815,7 @@ func childJoinRules(c *Ctx, rt *Routine, rule string) {
 		bad = append(bad, "a termination signal is raised before the inner discipline is stopped")
 	}
 	r.Check(len(bad) == 0, rule, ekey+"#order", p.Pos(fn.Pos()), "run order: "+desc, strings.Join(bad, "; ")+" (run order: "+desc+")")
-	for _, b := range fn.Blocks {
+	for _, b := range rt.routineBlocks() {
 		for i, in := range b.Instrs {
 			g, ok := in.(*ssa.Go)
 			if !ok {
@@ -753,7 +873,7 @@ func childJoinRules(c *Ctx, rt *Routine, rule string) {
 			// the context handed to the child is the one the deferred cancel() cancels
 			ctxOK := false
 			for _, a := range g.Common().Args {
-				s := p.Sym(a)
+				s := p.Sym(p.originOf(a, 0)) // the context may reach the go statement through a helper's parameter
 				if s.Op == "extract" && s.Name == "0" && s.Args[0].Op == "call" && s.Args[0].Name == "context.WithCancel" {
 					ctxOK = true
 				}
